@@ -48,16 +48,24 @@ class SourceHandlerMixin:
                             ):
                                 from_dataset = False
                                 for parent_candidate in src_col.parent_candidates:
+                                    # compare by name: with several relations in scope src_col has no parent
+                                    # yet, and a parentless column never equals a column of a table
                                     if isinstance(
                                         parent_candidate, Table
-                                    ) and src_col in metadata_provider.get_table_columns(
-                                        parent_candidate
+                                    ) and src_col.raw_name in (
+                                        c.raw_name
+                                        for c in metadata_provider.get_table_columns(
+                                            parent_candidate
+                                        )
                                     ):
                                         from_dataset = True
                                     elif isinstance(
                                         parent_candidate, SubQuery
-                                    ) and src_col in holder.get_table_columns(
-                                        parent_candidate
+                                    ) and src_col.raw_name in (
+                                        c.raw_name
+                                        for c in holder.get_table_columns(
+                                            parent_candidate
+                                        )
                                     ):
                                         from_dataset = True
                                 if not from_dataset and (
